@@ -104,24 +104,17 @@ Definition R (d : dstate) (m : mstate) : Prop :=
     end.
 
 (* ---------- initial state ---------- *)
-Lemma R_init_with b raw n cs d :
-  load_cnf_with b loadable raw n = Some d -> (b = true \/ stored_set raw <> []) ->
+Lemma R_init raw n cs d :
+  load_cnf loadable raw n = Some d ->
   equiv_cnf raw cs -> set_eq (stored_set raw) cs ->
   R d (m_init cs n).
 Proof.
-  unfold load_cnf_with. intros Hl Hne Heq Hset.
+  unfold load_cnf. intros Hl Heq Hset.
   destruct (loadable raw n) eqn:El; [|discriminate]. inversion Hl; subst d; clear Hl.
   destruct (cs_of_list_spec (map mk_clause (simplify_clauses raw))) as [S1 _].
   fold (stored_set raw) in S1.
-  assert (exists c, match stored_set raw with
-                    | [] => if b then Some (initialize [] n) else None
-                    | c0 :: r0 => Some (initialize (c0 :: r0) n)
-                    end = Some c /\ c = initialize (stored_set raw) n) as [c [Hc Hci]].
-  { destruct (stored_set raw) as [|c0 r0] eqn:Es.
-    - destruct Hne as [->|Hne]; [eexists; split; reflexivity|exfalso; apply Hne; reflexivity].
-    - eexists; split; reflexivity. }
-  exists c. cbn [cached live_of m_init m_cs m_n m_prev prev_of fst snd].
-  split; [exact Hc|]. subst c. split.
+  exists (initialize (stored_set raw) n). cbn [cached live_of m_init m_cs m_n m_prev prev_of fst snd].
+  split; [reflexivity|]. split.
   - constructor; cbn [initialize cclauses edit_add edit_rmv].
     + exact S1.
     + exact Hset.
@@ -134,11 +127,13 @@ Proof.
     split; [reflexivity|]. split; [exact Heq|exact El].
 Qed.
 
-Lemma R_init raw n cs d :
-  load_cnf loadable raw n = Some d -> stored_set raw <> [] ->
-  equiv_cnf raw cs -> set_eq (stored_set raw) cs ->
-  R d (m_init cs n).
-Proof. intros Hl Hne. apply (R_init_with false raw n cs d Hl). right. exact Hne. Qed.
+(* for a non-empty stored set the loader before F9 is the same function *)
+Lemma load_cnf_v0_nonempty raw n :
+  stored_set raw <> [] -> load_cnf_v0 loadable raw n = load_cnf loadable raw n.
+Proof.
+  intros Hne. unfold load_cnf_v0, load_cnf. destruct (loadable raw n); [|reflexivity].
+  destruct (stored_set raw) as [|c0 r0]; [exfalso; apply Hne; reflexivity|reflexivity].
+Qed.
 
 (* ---------- clause-update ---------- *)
 Definition rmv_ok (m : mstate) (rmvN : list clause) : bool :=
